@@ -29,7 +29,10 @@ def prior_configs(rng):
            (confgen.render_conservative(small), regs_a[:4], regs_a[4:]),
            (confgen.render_conservative(nested), regs_a[4:], regs_a[:4]),
            (confgen.render_conservative(nested), [], []),
-           (confgen.render_conservative(small), regs_a, [])]
+           (confgen.render_conservative(small), regs_a, []),
+           # sections that exist (registered) but have no members yet
+           (None, ["REG obj alpha", "REG obj alpha/o", "REG obj beta"], []),
+           (confgen.render_conservative([(b"alpha", ("obj", [(b"o", ("obj", []))])), (b"beta", ("obj", []))]), [], ["REG obj alpha/o"])]
     return out
 
 
@@ -58,6 +61,9 @@ AFTERMATH = [(b"alpha", ("obj", [(b"s", ("str", b"after")), (b"l", ("list", [b"x
              (b"beta", ("obj", [(b"t", ("str", b"7m"))])), (b"fresh", ("str", b"only-in-C"))]
 
 
+AFTERMATH2 = [(b"alpha", ("obj", [(b"s", ("str", b"z"))])), (b"gamma", ("obj", []))]     # drops most of what AFTERMATH and the priors had
+
+
 def _worker(a):
     exe, cases = a   # cases: list of (tag, prior index, B bytes or special)
     rng = random.Random(0)
@@ -69,11 +75,12 @@ def _worker(a):
         # aftermath: after the (possibly failing) load of B a valid file C is loaded; when B failed, the tree and the hook log
         # must then be what they are in a run that never saw B (reference cases ref<pi>)
         pc = b.add_file(confgen.render_conservative(AFTERMATH))
+        pd = b.add_file(confgen.render_conservative(AFTERMATH2))
         for pi, (fileA, before, after) in enumerate(priors):
             cmds = list(before)
             if prior_paths[pi]:
                 cmds.append("LOAD " + confgen.pct(prior_paths[pi]))
-            cmds += list(after) + ["HOOKS", "LOAD " + confgen.pct(pc), "DUMP", "HOOKS"]
+            cmds += list(after) + ["HOOKS", "LOAD " + confgen.pct(pc), "DUMP", "HOOKS", "LOAD " + confgen.pct(pd), "DUMP", "HOOKS"]
             b.case("ref%d" % pi, cmds)
         for tag, pi, data in cases:
             fileA, before, after = priors[pi]
@@ -86,7 +93,8 @@ def _worker(a):
             cmds = list(before)
             if prior_paths[pi]:
                 cmds.append("LOAD " + confgen.pct(prior_paths[pi]))
-            cmds += list(after) + ["HOOKS", "SNAP", "LOAD " + confgen.pct(pb), "SAME", "HOOKS", "LOAD " + confgen.pct(pc), "DUMP", "HOOKS"]
+            cmds += list(after) + ["HOOKS", "SNAP", "LOAD " + confgen.pct(pb), "SAME", "HOOKS", "LOAD " + confgen.pct(pc), "DUMP", "HOOKS",
+                                   "LOAD " + confgen.pct(pd), "DUMP", "HOOKS"]
             b.case(tag, cmds)
             meta[tag] = (pi, data)
         recs, r = b.run()
@@ -99,7 +107,7 @@ def _worker(a):
     for rec in recs:
         if rec.name.startswith("ref"):
             if rec.status == "exit=0" and rec.dumps and rec.loads and rec.loads[-1] == 0 and not hconf.case_crash_events(rec):
-                refs[int(rec.name[3:])] = (rec.dumps[-1], rec.hooks[-1] if rec.hooks else [])
+                refs[int(rec.name[3:])] = (rec.dumps[-2], rec.hooks[-2] if len(rec.hooks) >= 2 else [], rec.dumps[-1])
     for rec in recs:
         if rec.name.startswith("ref"):
             continue
@@ -114,14 +122,14 @@ def _worker(a):
                 out.append(("crash", "%s|%s" % (kind, func), "loading %r on prior #%d: %s in %s\n%s" % (
                     wit["file"][:200], pi, kind, func, (txt[0] if txt else "")[:1500]), wit))
             continue
-        want_loads = 3 if prior_configs(rng)[pi][0] is not None else 2
+        want_loads = 4 if prior_configs(rng)[pi][0] is not None else 3
         if len(rec.loads) != want_loads:
             out.append(("harness", "harness", "unexpected LOAD count %s" % rec.loads, wit))
             continue
-        if want_loads == 3 and rec.loads[0] != 0:
+        if want_loads == 4 and rec.loads[0] != 0:
             out.append(("harness", "harness", "prior config did not load: %s" % rec.loads, wit))
             continue
-        rc = rec.loads[-2]
+        rc = rec.loads[-3]
         if rc == 0:
             stats["loads_succeeded"] += 1
             continue
@@ -133,21 +141,23 @@ def _worker(a):
             diff = [l for l in after if l not in before][:4] + ["--- before only:"] + [l for l in before if l not in after][:4]
             out.append(("atomicity-dump", "atomicity-dump", "conf_read failed (rc=%d) but the live tree changed on prior #%d, file %r:\n%s" % (
                 rc, pi, wit["file"][:300], "\n".join(diff)), wit))
-        hooks = rec.hooks[-2] if len(rec.hooks) >= 2 else []
+        hooks = rec.hooks[-3] if len(rec.hooks) >= 3 else []
         if hooks:
             out.append(("atomicity-hook", "atomicity-hook", "conf_read failed (rc=%d) but hooks ran: %s; file %r" % (rc, hooks[:4], wit["file"][:300]), wit))
         if pi in refs and rec.dumps:
             stats["aftermath_checks"] += 1
-            rd, rh = refs[pi]
-            if rec.loads[-1] != 0:
+            rd, rh, rd2 = refs[pi]
+            if rec.loads[-1] != 0 or rec.loads[-2] != 0:
                 out.append(("aftermath-load", "aftermath-load", "after the failed load of %r a valid file no longer loads (rc=%d)" % (wit["file"][:300], rec.loads[-1]), wit))
-            elif rec.dumps[-1] != rd:
-                diff = [l for l in rec.dumps[-1] if l not in rd][:5] + ["--- only without the failed load:"] + [l for l in rd if l not in rec.dumps[-1]][:5]
+            elif rec.dumps[-2] != rd or rec.dumps[-1] != rd2:
+                got_ = rec.dumps[-2] if rec.dumps[-2] != rd else rec.dumps[-1]
+                rd = rd if rec.dumps[-2] != rd else rd2
+                diff = [l for l in got_ if l not in rd][:5] + ["--- only without the failed load:"] + [l for l in rd if l not in got_][:5]
                 out.append(("aftermath-dump", "aftermath-dump", "the failed load of %r (rc=%d, prior #%d) left something behind: the next successful load gives a different tree than "
                             "without it:\n%s" % (wit["file"][:300], rc, pi, "\n".join(diff)), wit))
-            elif sorted(rec.hooks[-1]) != sorted(rh):
+            elif sorted(rec.hooks[-2]) != sorted(rh):
                 out.append(("aftermath-hooks", "aftermath-hooks", "after the failed load of %r the next successful load notified %s, without the failed load %s" % (
-                    wit["file"][:300], sorted(rec.hooks[-1])[:6], sorted(rh)[:6]), wit))
+                    wit["file"][:300], sorted(rec.hooks[-2])[:6], sorted(rh)[:6]), wit))
     for tag in meta:
         if tag not in seen:
             out.append(("harness", "harness", "case %s lost" % tag, {}))
@@ -160,7 +170,7 @@ def run(chk, tier, scale=1.0):
     nfiles = int((14 if tier == "quick" else 160) * scale) or 1
     files = valid_files(rng, nfiles * 2)[:nfiles]
     cases = []
-    npri = 6
+    npri = 8
     k = 0
     for fi, data in enumerate(files):
         for cut in range(len(data)):
@@ -228,7 +238,7 @@ def run(chk, tier, scale=1.0):
     chk.count("valid_files", len(files))
     chk.rule = ("fault enumeration: %d generated valid files truncated at every byte offset, single-byte substitutions/insertions/deletions "
                 "from a hostile alphabet, special inputs (empty, missing, directory, 1000-level nesting, 64 KiB string, random bytes), each loaded "
-                "on top of one of 6 prior configurations (with registered nodes of all four kinds and hooks); after every case a fixed valid file is loaded: if the "
+                "on top of one of 8 prior configurations (with registered nodes of all four kinds and hooks); after every case a fixed valid file is loaded: if the "
                 "hostile load failed, tree and hook log must then equal those of a run that never saw the hostile file; distinct = (prior, file bytes); "
                 "every case is non-trivial (it performs a load on a non-empty prior state or an empty one)" % len(files))
     chk.exhaustive = False
